@@ -75,13 +75,40 @@ class SendAPI:
         k = pidx.get("addr_stack", 0)
         return call.args[k]
 
+    def type_values(self, f, c, depth=0):
+        """[(function that supplies the literal, call there, literal)] for the type argument of constructor call c in f; when f is a static
+        helper that forwards one of its parameters, the literals are taken from its call sites; None if some site passes no literal"""
+        o = rules.resolve_local(f, rules.strip_casts(f, self.type_arg(c)))
+        t = rules.const_of(f, o)
+        if t is not None:
+            return [(f, c, t & 0xff)]
+        src = rules.load_source(f, o)
+        k = None
+        if o.get("k") == "arg":
+            k = o["i"]
+        elif src and src[0] == "alloca":
+            stores = [s_ for s_ in f.all_insts() if s_.op == "store" and s_["ptr"].get("k") == "inst" and s_["ptr"]["id"] == src[1]]
+            if len(stores) == 1:
+                k = f.param_index_of_alloca(f.insts[src[1]])
+        if depth < 2 and f.internal and k is not None:
+            if True:
+                out = []
+                cs = self.P.callers().get(f.name, [])
+                for cf, ci in cs:
+                    tv = rules.const_of(cf, rules.resolve_local(cf, rules.strip_casts(cf, ci.args[k]))) if k < len(ci.args) else None
+                    if tv is None:
+                        return None
+                    out.append((cf, ci, tv & 0xff))
+                return out or None
+        return None
+
     def senders_of(self, types):
-        """functions that contain a constructor call with a constant type in `types`"""
+        """functions that submit a message with a constant type in `types` (directly or through a static helper they hand the type to)"""
         out = {}
         for (f, c, ctor) in self.sites:
-            t = rules.const_of(f, self.type_arg(c))
-            if t is not None and (t & 0xff) in types:
-                out.setdefault(f.name, []).append((c, t & 0xff))
+            for (g, cc, t) in (self.type_values(f, c) or []):
+                if t in types:
+                    out.setdefault(g.name, []).append((cc, t))
         return out
 
     def transmit_reaching_calls(self, fn):
